@@ -94,7 +94,8 @@ func hexHead(b []byte) string {
 	return string(o)
 }
 
-func runRobust(id int, in []byte, recipe string, dp *dict.Parser, out *Out, slowMS int) {
+func runRobust(id int, in []byte, recipe string, dp *dict.Parser, out *Out, slowMS int, decodeOnly ...bool) {
+	noPost := len(decodeOnly) > 0 && decodeOnly[0]
 	mk := func(entry string) robustLine {
 		return robustLine{Ev: "robust", ID: id, N: len(in), Recipe: recipe, Entry: entry, Post: []postOp{}, Hex: hexHead(in)}
 	}
@@ -112,7 +113,7 @@ func runRobust(id int, in []byte, recipe string, dp *dict.Parser, out *Out, slow
 		m, err = diam.ReadMessage(bytes.NewReader(in), dp)
 		return err
 	})
-	if l.Outcome == "ok" && m != nil {
+	if l.Outcome == "ok" && m != nil && !noPost {
 		post := func(op string, f func() (int, error)) {
 			var n int
 			o, d, a, _, ms := measure(func() error {
@@ -165,7 +166,7 @@ func runRobust(id int, in []byte, recipe string, dp *dict.Parser, out *Out, slow
 		av, err = diam.DecodeAVP(append([]byte(nil), body...), abs.VApp, dp)
 		return err
 	})
-	if a.Outcome == "ok" && av != nil {
+	if a.Outcome == "ok" && av != nil && !noPost {
 		post1(&a, "String", func() int { return len(av.String()) })
 		post1(&a, "Serialize", func() int { b, _ := av.Serialize(); return len(b) })
 	}
@@ -177,7 +178,7 @@ func runRobust(id int, in []byte, recipe string, dp *dict.Parser, out *Out, slow
 		ga, err = diam.DecodeGrouped(datatype.Grouped(append([]byte(nil), body...)), abs.VApp, dp)
 		return err
 	})
-	if g.Outcome == "ok" && ga != nil {
+	if g.Outcome == "ok" && ga != nil && !noPost {
 		post1(&g, "String", func() int { return len(ga.String()) })
 		post1(&g, "Serialize", func() int { return len(ga.Serialize()) })
 	}
@@ -239,7 +240,9 @@ func Robust(a Args) error {
 		switch a.Extra["one"] {
 		case "nest":
 			depth := a.N
-			runRobust(1, nested(depth), "nested-groups-depth", vp, out, 600000)
+			// beyond a few thousand levels only decoding is exercised: rendering and re-serialising such
+			// nests is quadratic (a recorded finding) and would exhaust the machine
+			runRobust(1, nested(depth), "nested-groups-depth", vp, out, 600000, depth > 2048)
 		}
 		return nil
 	}
